@@ -231,6 +231,7 @@ static std::string gepoff(const GEPOperator* g, std::function<std::string(const 
   return o.str();
 }
 static bool typed_gep = true;
+static bool atomics_hook = false;  // --atomics-hook: atomic accesses become calls into the harness's shared-memory model
 // Typed address computation: &((S*)base)[i0].fK.e[i1]...  (field-sensitive for CBMC).  Falls back to
 // byte arithmetic (empty result) for shapes we do not model (zero-length arrays, odd element types).
 static std::string geptyped(const GEPOperator* g, const std::string& base, std::function<std::string(const Value*)> val) {
@@ -698,12 +699,18 @@ struct FnEmitter {
       }
       case Instruction::Load: {
         auto& li = cast<LoadInst>(I);
+        if (li.isAtomic() && atomics_hook && T->isIntegerTy()) {
+          out << "  " << lhs << " = (" << ctype(T) << ")vk_atomic_load(" << op(0) << ", " << (int)li.getOrdering() << ", " << ibits(T) / 8 << ");\n"; return;
+        }
         if (li.isAtomic()) out << "  /* atomic " << (int)li.getOrdering() << " */\n";
         out << "  " << lhs << " = " << loadexpr(T, op(0)) << ";\n"; return;
       }
       case Instruction::Store: {
         auto& si = cast<StoreInst>(I);
         Type* vt = si.getValueOperand()->getType();
+        if (si.isAtomic() && atomics_hook && vt->isIntegerTy()) {
+          out << "  vk_atomic_store(" << op(1) << ", (uint64_t)" << op(0) << ", " << (int)si.getOrdering() << ", " << ibits(vt) / 8 << ");\n"; return;
+        }
         if (oddwidth(vt) && ibits(vt) != 1) die("store odd");
         std::string ct = vt->isIntegerTy() && ibits(vt) == 1 ? "uint8_t" : ctype(vt);
         out << "  *(" << ct << "*)(" << op(1) << ") = " << op(0) << ";\n"; return;
@@ -799,6 +806,9 @@ struct FnEmitter {
       case Instruction::AtomicCmpXchg: {
         auto& cx = cast<AtomicCmpXchgInst>(I);
         Type* vt = cx.getCompareOperand()->getType();
+        if (atomics_hook) {
+          out << "  { uint64_t old_; " << lhs << ".f1 = (uint8_t)vk_atomic_cmpxchg(" << op(0) << ", (uint64_t)" << op(1) << ", (uint64_t)" << op(2) << ", " << (int)cx.getSuccessOrdering() << ", " << (int)cx.getFailureOrdering() << ", " << ibits(vt) / 8 << ", &old_); " << lhs << ".f0 = (" << ctype(vt) << ")old_; }\n"; return;
+        }
         out << "  __CPROVER_atomic_begin(); " << lhs << ".f0 = *(" << ctype(vt) << "*)(" << op(0) << "); " << lhs << ".f1 = (" << lhs << ".f0 == " << op(1) << "); if (" << lhs << ".f1) *(" << ctype(vt) << "*)(" << op(0) << ") = " << op(2) << "; __CPROVER_atomic_end();\n"; return;
       }
       case Instruction::Fence: out << "  __CPROVER_fence(\"WWfence\",\"RRfence\",\"RWfence\",\"WRfence\");\n"; return;
@@ -847,6 +857,7 @@ int main(int argc, char** argv) {
     if (a == "--stub" && i + 1 < argc) for (auto& s : split(argv[++i])) stubs.insert(s);
     else if (a == "--check-flags") check_flags = true;
     else if (a == "--untyped-gep") typed_gep = false;
+    else if (a == "--atomics-hook") atomics_hook = true;
     else if (a == "--prefix" && i + 1 < argc) prefix = argv[++i];
   }
   for (auto& r : split(argv[2])) {
@@ -922,6 +933,7 @@ int main(int argc, char** argv) {
   }
   for (auto& lr : lazyrel) if (needF.count(lr.f) && !lr.f->isDeclaration()) ginit << "  *(uint64_t*)(" << lr.g << "+" << lr.off << ") = (uint64_t)&" << gname(lr.f) << ";\n";
   printf("/* generated by ll2c from %s */\n#include <stdint.h>\n#include <stddef.h>\n#include \"ll2c_rt.h\"\n", argv[1]);
+  if (atomics_hook) printf("uint64_t vk_atomic_load(uint8_t* p, int order, int width);\nvoid vk_atomic_store(uint8_t* p, uint64_t v, int order, int width);\nint vk_atomic_cmpxchg(uint8_t* p, uint64_t expected, uint64_t desired, int so, int fo, int width, uint64_t* old);\n");
   for (auto& d : aggdefs) printf("%s\n", d.c_str());
   for (auto* f : external) printf("%s; /* external: %s */\n", fnsig(f, gname(f)).c_str(), f->getName().str().c_str());
   for (auto* f : defined) printf("%s;\n", fnsig(f, gname(f)).c_str());
